@@ -2,6 +2,9 @@ package repl
 
 import "fmt"
 
+// NoProgressK: see InvProgressAfterFailures (same constant in spec/TraceReplication.cfg).
+const NoProgressK = 5
+
 // Finding is a failed predicate of the end-to-end observation oracle.
 type Finding struct {
 	Oracle string `json:"oracle"` // name of the predicate (same names as the TLA+ invariants)
@@ -34,6 +37,14 @@ type Observation struct {
 //	InvPersistedLeAcked           last_log_id <= highest id ever acknowledged
 //	InvPersistedLeAckedSinceReset last_log_id <= highest id acknowledged since the last reset
 //
+//	InvProgressAfterFailures      count-based form of "every log is delivered despite failures": refusals that
+//	                              are not charged to the scenario's failure budget (the exporter is healthy and
+//	                              only honours its context: Accept event with name "ctx") never come
+//	                              NoProgressK times in a row for one pipeline instance without an accepted batch
+//	                              in between.  A stopped instance can be refused once (its context is cancelled
+//	                              by the stop); Replication.tla's fairness says a healthy exporter accepts the
+//	                              next attempt.  Attempts are counted, never time.
+//
 // and on the final observation (only if the scenario reached quiescence):
 //
 //	FinalComplete                 every produced log was acknowledged since the last reset
@@ -56,6 +67,7 @@ func Evaluate(s Snapshot, quiescent bool) (Observation, []Finding) {
 	var ackedEver, ackedSince, persisted uint64
 	resets := 0
 	stale := false
+	streakEp, streak := 0, 0
 	add := func(oracle string, seq int, format string, a ...any) {
 		findings = append(findings, Finding{Oracle: oracle, Seq: seq, Text: fmt.Sprintf(format, a...), StaleStoreAfterReset: stale})
 	}
@@ -96,8 +108,20 @@ func Evaluate(s Snapshot, quiescent bool) (Observation, []Finding) {
 			}
 		case "Accept":
 			if !ev.Ok {
+				if ev.Name == "ctx" {
+					if streakEp == ev.Ep {
+						streak++
+					} else {
+						streakEp, streak = ev.Ep, 1
+					}
+					if streak == NoProgressK {
+						add("InvProgressAfterFailures", ev.Seq, "pipeline instance %d: %d consecutive Accept attempts (batch %v) refused by a healthy exporter "+
+							"because the context it was given is already cancelled, no batch accepted in between", ev.Ep, streak, ev.Ids)
+					}
+				}
 				continue
 			}
+			streakEp, streak = ev.Ep, 0
 			e := get(ev.Ep)
 			okRun := len(ev.Ids) > 0
 			for i := 1; i < len(ev.Ids); i++ {
